@@ -52,11 +52,14 @@ def driver_grid(info, text, module="dagrtmod"):
     A("program verif_memdriver")
     A("  use %s, only: dagrt_state_type, vinit => initialize, vrun => run, vshutdown => shutdown" % module)
     A("  implicit none")
-    A("  type(dagrt_state_type), target :: dagrt_state")
+    # the state object lives on the heap: its memory is NOT zero-filled (the sanitizer's allocator fills fresh blocks with
+    # a pattern), so a pointer component that initialize forgets to nullify is really undefined
+    A("  type(dagrt_state_type), pointer :: dagrt_state")
     A("  type(dagrt_state_type), pointer :: dagrt_state_ptr")
     A("  integer :: istep, nruns")
     A("  real*8 :: nn(8), mm(8)")
     A("  real*8, dimension(2) :: y0")
+    A("  allocate(dagrt_state)")
     A("  dagrt_state_ptr => dagrt_state")
     A("  y0(1) = 1.0d0")
     A("  y0(2) = 2.0d0")
@@ -85,6 +88,7 @@ def driver_grid(info, text, module="dagrtmod"):
     A("    call vrun(dagrt_state=dagrt_state_ptr)")
     A("  end do")
     A("  call vshutdown(dagrt_state=dagrt_state_ptr)")
+    A("  deallocate(dagrt_state)")
     A("  write(*,'(A)') 'SHUTDOWN-DONE'")
     A("end program")
     return "\n".join(L) + "\n"
@@ -286,10 +290,11 @@ TYPE_DRIVER = """
 program driver
   use dagrtmod, only: dagrt_state_type, %(use)stimestep_initialize => initialize, timestep_run => run, timestep_shutdown => shutdown
   implicit none
-  type(dagrt_state_type), target :: dagrt_state
+  type(dagrt_state_type), pointer :: dagrt_state
   type(dagrt_state_type), pointer :: dagrt_state_ptr
   %(decl)s
   integer istep
+  allocate(dagrt_state)
   dagrt_state_ptr => dagrt_state
 %(init)s
   call timestep_initialize(dagrt_state=dagrt_state_ptr, state_y=y0, dagrt_t=0d0, dagrt_dt=1d-1, p_count=0d0)
@@ -297,6 +302,7 @@ program driver
     call timestep_run(dagrt_state=dagrt_state_ptr)
   end do
   call timestep_shutdown(dagrt_state=dagrt_state_ptr)
+  deallocate(dagrt_state)
 %(fini)s
   write(*,*) 'SHUTDOWN-DONE'
 end program
